@@ -41,6 +41,14 @@ class Connection:
     previous = gfa._search_duplicate(self)
     if previous:
       if previous.virtual:
+        if not isinstance(previous, gfapy.line.Unknown) and \
+            previous.record_type != self.record_type:
+          # a placeholder stands for a line of a given kind (e.g. a segment);
+          # a line of another kind cannot take its place
+          raise gfapy.NotUniqueError(
+            "Line: {}\n".format(str(self))+
+            "The ID is already used by references to a line of type {}".format(
+              previous.record_type))
         return self._substitute_virtual_line(previous)
       else:
         return self._process_not_unique(previous)
